@@ -222,7 +222,7 @@ fn evaluate_against_data_input<'r>(
             overall == (if some_fail(*rules, *extra_data, data_files@, it.index@ as int) { Status::FAIL } else { Status::PASS }),
 {
         let each = match &extra_data {
-            Some(_data) => file.path_value.clone(),
+            Some(data) => data.clone().merge(file.path_value.clone())?,
             None => file.path_value.clone(),
         };
         let traversal = Traversal::from(&each);
